@@ -4,6 +4,7 @@ import (
 	"crypto"
 	"crypto/ecdsa"
 	"crypto/elliptic"
+	stdrsa "crypto/rsa"
 	"crypto/sha256"
 	"crypto/x509"
 	"encoding/asn1"
@@ -39,6 +40,14 @@ type SignatureVerifier struct {
 
 // NewSignatureVerifier creates a new SignatureVerifier using the passed in PublicKey.
 func NewSignatureVerifier(pk crypto.PublicKey) (*SignatureVerifier, error) {
+	// PublicKeyFromPEM parses with crypto/x509 and so returns RSA keys as
+	// *crypto/rsa.PublicKey; verification uses this module's rsa package.
+	if stdKey, ok := pk.(*stdrsa.PublicKey); ok {
+		if stdKey == nil || stdKey.N == nil {
+			return nil, errors.New("public key is RSA without a modulus")
+		}
+		pk = &rsa.PublicKey{N: stdKey.N, E: big.NewInt(int64(stdKey.E))}
+	}
 	switch pkType := pk.(type) {
 	case *rsa.PublicKey:
 		if pkType.N.BitLen() < 2048 {
